@@ -217,7 +217,7 @@ class SpectrumAnalyzer:
                 logging.warning(
                     "Input data contains NaN/Inf; replacing non-finite samples with 0."
                 )
-                np.nan_to_num(self.data, copy=False, nan=0.0, posinf=0.0, neginf=0.0)
+                self.data = np.nan_to_num(self.data, nan=0.0, posinf=0.0, neginf=0.0)
             self.x1 = self.data[0]
             self.x2 = self.data[1]
             if self.verbose:
@@ -230,7 +230,7 @@ class SpectrumAnalyzer:
                 logging.warning(
                     "Input data contains NaN/Inf; replacing non-finite samples with 0."
                 )
-                np.nan_to_num(self.data, copy=False, nan=0.0, posinf=0.0, neginf=0.0)
+                self.data = np.nan_to_num(self.data, nan=0.0, posinf=0.0, neginf=0.0)
             self.x1 = self.data
             if self.verbose:
                 logging.info(
